@@ -873,7 +873,7 @@ spec("C14", plan=plan_c14, post=post_c14,
      rule="differential against an independent strict RFC 8259 recogniser (oracles/json_ref.hpp, ABNF + table-driven UTF-8 validator): "
           "the repository's pass/fail/blns data files; ALL strings up to length 5 (thorough 6) over a 29-symbol JSON alphabet (structural "
           "characters, quote, backslash, digits, sign, '.', e/E, letters of the literals, space, LF, 0x1f, 0x7f, a stray continuation byte, "
-          "one 2-byte character); rapidcheck-generated documents (depth <= 5, numbers of all forms, strings with every escape, surrogate "
+          "one 2-byte character, the byte order mark, an overlong 2-byte form); rapidcheck-generated documents (depth <= 5, numbers of all forms, strings with every escape, surrogate "
           "escapes, 1-4 byte characters, whitespace everywhere), every truncation of each and 12 single-edit mutants of each (delete / "
           "insert / replace / swap with JSON-significant and UTF-8-significant bytes); nesting 1..300; a coverage-guided libFuzzer campaign "
           "(8 jobs x 150 k executions, thorough 4 M, JSON dictionary, seeded from the repository's data files) with the same differential "
